@@ -137,6 +137,20 @@ def routes(T, v):
         others = [a[0] for a in base[1] if a[0] != v[0]]
         if others:
             yield 'reselect', [('setother', others[0]), ('set', v[0], 'name')]
+    elif k == 'REAL' and isinstance(v, tuple) and v[0]:
+        m, b, e = v
+        yield 'scalar', [('scalar',)]
+        yield 'scaled-up', [('real', (m * b, b, e - 1))]
+        yield 'scaled-up2', [('real', (m * b * b, b, e - 2))]
+        if m % b == 0:
+            yield 'scaled-down', [('real', (m // b, b, e + 1))]
+        if b == 10:
+            from fractions import Fraction
+            fr = Fraction(m) * Fraction(10) ** e
+            if fr.denominator == 1 and abs(fr) < 10 ** 15:
+                yield 'from-int', [('real', int(fr))]
+                yield 'from-str', [('real', str(int(fr)))]
+                yield 'from-float', [('real', float(int(fr)))]
     else:
         yield 'scalar', [('scalar',)]
 
@@ -182,6 +196,8 @@ def execute(T, v, spec, steps, reads_at=None):
             obj.setComponentByPosition(st[1], B.build(base[1], v[st[1]], spec.componentType))
         elif st[0] == 'scalar':
             obj = B.build(T, v, spec)
+        elif st[0] == 'real':
+            obj = spec.clone(st[1])
     for op in reads_at.get(len(steps), ()):
         do_read(obj, op, T)
         nops += 1
